@@ -109,7 +109,12 @@ def mid_limits(vals):
     u = sorted(set(float(v) for v in vals))
     if len(u) < 4:
         return None
-    return (u[0] + u[1]) / 2, (u[-1] + u[-2]) / 2
+    lo, hi = (u[0] + u[1]) / 2, (u[-1] + u[-2]) / 2
+    # values that differ in the last bits only (a model on its plateau: ten points within 1e-15 of each other) leave no room for a bound that every
+    # rounding of the same numbers puts on the same side: such a set gets no limits (false alarm of the sweep after round 7, thorough seed 2)
+    if any(abs(v - b) <= 1e-9 * max(abs(v), abs(b)) for v in u for b in (lo, hi)):
+        return None
+    return lo, hi
 
 
 def mtok(marks):
@@ -457,8 +462,17 @@ def run(ck):
                 else:
                     hist.append(("T", (rng.choice(CELSIUS + ("K",)),)))
             hist.append(("T", (rng.choice(CELSIUS) if tu != "K" else "K",)))
-        for kind, a in hist:
-            if rng.random() < 0.5:          # interpolators cached before the conversion (they must be rebuilt afterwards)
+        for hi, (kind, a) in enumerate(hist):
+            # a conversion that keeps the mode / basis and changes ONLY the unit (g -> kg, bar -> Pa, mmol -> mol): the class of an interpolator reset tied
+            # to the basis change alone (C03-m8: caught on 3 seeds of 4 only while such steps came up by chance, one time in three)
+            if route == "history" and kind in ("P", "M", "L") and rng.random() < 0.4:
+                cur = c02.labels_of(iso)
+                pool = {"P": [x for x in PST if x[0] == cur[0] and x[1] != cur[1]], "L": [x for x in LST if x[0] == cur[2] and x[1] != cur[3]],
+                        "M": [x for x in MST if x[0] == cur[4] and x[1] != cur[5]]}[kind]
+                if pool:
+                    a = rng.choice(pool)
+                    hist[hi] = (kind, a)
+            if rng.random() < 0.65:          # interpolators cached before the conversion (they must be rebuilt afterwards)
                 try:
                     iso.loading_at(float(iso.pressure(branch="ads")[1]))
                     iso.pressure_at(float(iso.loading(branch="ads")[1]))
@@ -1262,10 +1276,12 @@ def run(ck):
                     ck.fail_case({"clause": "model isotherm stored in °C evaluates differently from the same isotherm stored in K", "model": name, "path": "model instance"},
                                  {"params": par, "T_K": tk, "pressure": ps.tolist(), "kelvin": a.tolist(), "celsius": b.tolist()})
                     continue
+                # (parameters at 10 %: a DA fit on five points is ill-conditioned along e ~ m, and the two kelvin temperatures differ in the last bit — the optimiser stops
+                #  1.6e-3 apart in e (false alarm at boost 3, seed 2, after round 7); the defect class, the stored °C number taken for kelvin, moves e by a factor >= 1.27)
                 fits = [pg.ModelIsotherm(pressure=ps, loading=a, model=name, temperature=t, temperature_unit=u, **common) for t, u in ((tk, "K"), (tk - 273.15, "°C"))]
                 fa, fb = np.asarray(fits[0].loading_at(ps), dtype=float), np.asarray(fits[1].loading_at(ps), dtype=float)
                 pa, pb = fits[0].model.params, fits[1].model.params
-                if not (np.allclose(fa, fb, rtol=1e-6, atol=0) and all(abs(float(pa[k]) - float(pb[k])) <= 1e-4 * abs(float(pa[k])) for k in pa)):
+                if not (np.allclose(fa, fb, rtol=1e-6, atol=0) and all(abs(float(pa[k]) - float(pb[k])) <= 0.1 * abs(float(pa[k])) for k in pa)):
                     ck.fail_case({"clause": "model isotherm stored in °C evaluates differently from the same isotherm stored in K", "model": name, "path": "fit"},
                                  {"params": par, "T_K": tk, "pressure": ps.tolist(), "fit_kelvin": {k: float(v) for k, v in pa.items()}, "fit_celsius": {k: float(v) for k, v in pb.items()}})
             except pg.utilities.exceptions.CalculationError:
